@@ -262,12 +262,19 @@ class WsgiEdge(EdgeServer, WsgiServer):
 
     def _enqueue_envelope(self, env):
         results = self.handoff(env)
-        if isinstance(results[0][1], QueueError):
+        # Queue policies may have split the message: it is only accepted if
+        # every resulting envelope was.
+        result = results[0][1]
+        for _, other_result in results:
+            if isinstance(other_result, (QueueError, RelayError)):
+                result = other_result
+                break
+        if isinstance(result, QueueError):
             default_reply = Reply('451', '4.3.0 Error queuing message')
-            reply = getattr(results[0][1], 'reply', default_reply)
+            reply = getattr(result, 'reply', default_reply)
             raise _build_http_response(reply)
-        elif isinstance(results[0][1], RelayError):
-            relay_reply = results[0][1].reply
+        elif isinstance(result, RelayError):
+            relay_reply = result.reply
             raise _build_http_response(relay_reply)
         reply = Reply('250', '2.6.0 Message accepted for delivery')
         raise _build_http_response(reply)
